@@ -582,6 +582,11 @@ func replayCase(n int, c Case, hookbin string) Result {
 					return bad(i, "C17/start-after-shutdown", fmt.Sprintf("queue %s started task %s after Shutdown had returned", q, id))
 				}
 			}
+		case "DebugRead":
+			// what the debug endpoint does: dump the snapshots of every kubernetes binding of the hook
+			if h := f.Op.HookManager.GetHook(fmt.Sprint(a[1])); h != nil {
+				h.HookController.SnapshotsDump()
+			}
 		default:
 			return bad(i, "DIV/unknown-action", op)
 		}
